@@ -586,6 +586,10 @@ func (e *env) judgeDeliveryLocked(o *openRec, l *lst) {
 	if o.sentSeq < l.listenSeq {
 		m.Count("delivered_open_sent_before_listen_returned", 1)
 	}
+	if o.intent == "burst-at-registration" {
+		m.Count("burst_at_registration_resolved", 1)
+	}
+	m.Distinct("open " + o.intent + " -> delivered")
 }
 
 // judgeRejectLocked: the harness saw CHANNEL_OPEN_FAILURE for o. Rejection is
@@ -596,6 +600,10 @@ func (e *env) judgeRejectLocked(o *openRec) {
 	m := e.m
 	m.Eval()
 	m.Count(fmt.Sprintf("rejected_reason_%d", o.reason), 1)
+	if o.intent == "burst-at-registration" {
+		m.Count("burst_at_registration_resolved", 1)
+	}
+	m.Distinct("open " + o.intent + " -> rejected")
 	group := e.exactListenersLocked(o)
 	if len(group) == 0 {
 		m.Count("rejected_unregistered", 1)
@@ -720,10 +728,15 @@ func firstXFrame(g mon.G) string {
 	return ""
 }
 
+// flMethod: the forwardList method (of those that take the list mutex) the
+// goroutine is inside, "" if none.
 func flMethod(g mon.G) string {
 	for _, f := range g.Frames {
 		if strings.HasPrefix(f, xssh+"(*forwardList).") {
-			return strings.TrimPrefix(f, xssh+"(*forwardList).")
+			switch m := strings.TrimPrefix(f, xssh+"(*forwardList)."); m {
+			case "add", "remove", "closeAll", "forward":
+				return m
+			}
 		}
 	}
 	return ""
@@ -1235,6 +1248,12 @@ func (e *env) doClose(l *lst) {
 	}
 	e.mu.Lock()
 	k := e.unacceptedLocked(l)
+	appK := 0 // forwards sent for this listener that the application never got from Accept
+	for _, o := range e.opens {
+		if o.sentSeq != 0 && exactMatch(o, l) && o.delivered == nil && o.outcome != outConnErr {
+			appK++
+		}
+	}
 	settled := e.settledOK
 	blockedAccept := l.acceptPending
 	second := l.closes > 0
@@ -1266,6 +1285,9 @@ func (e *env) doClose(l *lst) {
 			if k >= 6 {
 				m.Count("close_with_6to20_unaccepted", 1)
 			}
+		}
+		if appK >= 2 {
+			m.Count("close_after_2plus_forwards_not_accepted", 1)
 		}
 		if !settled {
 			m.Count("close_while_forwards_in_flight", 1)
